@@ -211,6 +211,8 @@ def explore(ctx: Ctx):
     emit("S3-DQN", "DQN", family(3, 2, shaped=True, limits=[(0, 0), (0, 2), (0, 3)]), scripts_full("discrete", 2, 4), [(8, 2, 1, 2, 1), (6, 1, 2, 1, 2)], keys[:1])
     sac_cfg = [(8, 0, 1, 2, 1), (4, 3, 1, 1, 1), (4, 1, 2, 2, 1)]
     emit("S2-SAC-box", "SAC", family(2, 2, shaped=False, limits=[(0, 0), (0, 2), (2, 0)], act_kind="box"), scripts_full("box", 2, 3), sac_cfg, keys[:1])
+    # a Box bounded on ONE side only ([-1, inf)): the finite bound is still enforced (-2 is executed as -1, +2 stays +2)
+    emit("S2-SAC-boxhalf", "SAC", family(2, 2, shaped=False, limits=[(0, 0), (0, 2)], act_kind="boxhalf"), scripts_full("boxhalf", 2, 3), [(8, 0, 1, 2, 1), (4, 1, 2, 2, 1)], keys[:1])
     emit("S2-SAC-boxvec", "SAC", family(2, 2, shaped=True, limits=[(0, 2)], act_kind="boxvec"), scripts_full("boxvec", 2, 3), [(6, 1, 1, 2, 1)], keys[:1])
     emit("S2-DQN-H10-dev2", "DQN", family(2, 2, shaped=False, limits=[(0, 0), (0, 3), (4, 0)]), scripts_deviation("discrete", 2, 10, 2), [(4, 4, 1, 3, 2), (16, 2, 2, 4, 2)], keys[:1])
     if thorough:
